@@ -1150,6 +1150,16 @@ func (pid *PID) Ask(ctx context.Context, to *PID, message any, timeout time.Dura
 		putResponseChannel(responseCh)
 		return result, nil
 	case <-ctx.Done():
+		// The reply may already be waiting: when both are ready select picks
+		// at random, and a reply given in time must not be reported as lost.
+		select {
+		case late := <-responseCh:
+			timers.Put(timer)
+			receiveContext.responseClosed.Store(true)
+			putResponseChannel(responseCh)
+			return late, nil
+		default:
+		}
 		err = errors.Join(ctx.Err(), gerrors.ErrRequestTimeout)
 		pid.handleReceivedErrorWithMessage(pid, message, err)
 		timers.Put(timer)
@@ -1162,6 +1172,16 @@ func (pid *PID) Ask(ctx context.Context, to *PID, message any, timeout time.Dura
 		putResponseChannel(responseCh)
 		return nil, err
 	case <-timer.C:
+		// The reply may already be waiting: when both are ready select picks
+		// at random, and a reply given in time must not be reported as lost.
+		select {
+		case late := <-responseCh:
+			timers.Put(timer)
+			receiveContext.responseClosed.Store(true)
+			putResponseChannel(responseCh)
+			return late, nil
+		default:
+		}
 		err = gerrors.ErrRequestTimeout
 		pid.handleReceivedErrorWithMessage(pid, message, err)
 		timers.Put(timer)
